@@ -25,7 +25,7 @@ fn ip_window_is_clipped_to_the_mapping_that_contains_ip() {
     // without such a pair in this process's layout only the single-mapping cases are exercised
     let (a, b) = match k {
         Some(k) => (parsed[k], Some(parsed[k + 1])),
-        None => (*parsed.iter().zip(&lines).find(|(p, l)| p.2 && l.contains('/') && p.1 - p.0 >= 0x1000).expect("a readable file mapping").0, None),
+        None => (*parsed.iter().zip(&lines).find(|(p, l)| p.2 && l.contains('/') && p.1 - p.0 >= 0x1000).expect("setup: a readable file mapping").0, None),
     };
     let stack_sp = { // a valid stack pointer: the main thread's
         let plain = MinidumpWriter::new(pid, pid).dump(&mut std::io::Cursor::new(Vec::new())).unwrap();
